@@ -192,7 +192,56 @@ fn slice_case(em: &mut Emitter, a: &[u8], ca: &[u8], sl: &[u8]) {
     });
 }
 
+/// 1603: the value used as a decoding source under a script of request(n) / advance(k): the amount each
+/// request reports and everything slice() shows afterwards. Oracle: the Source contract against the content -
+/// a request grants at least min(n, what is left) and at most what is left, the view is a prefix of what is
+/// left, and nothing is lost.
+fn source_case(em: &mut Emitter, mode: u8, data: &[u8], script: &[(u8, usize)], content: Option<Vec<u8>>) {
+    let flat: Vec<u8> = Vec::new(); let _ = flat;
+    let sc: Vec<i128> = script.iter().flat_map(|(o, n)| [*o as i128, *n as i128]).collect();
+    em.case(1603, &[num_arg(mode), bytes_arg(data), crate::c02::ints_of(&sc)], || {
+        let r = catch(|| take_os(mode, Tag::OCTET_STRING, data).map(|os| {
+            use bcder::decode::{IntoSource, Source};
+            let mut src = os.into_source();
+            let mut log: Vec<i128> = Vec::new(); let mut violated: Option<&'static str> = None;
+            let mut left: Option<Vec<u8>> = content.clone();
+            for (op, n) in script {
+                if *op == 0 {
+                    let g = src.request(*n).unwrap();
+                    let sl = src.slice().to_vec();
+                    log.push(g as i128); log.push(sl.len() as i128); log.extend(sl.iter().map(|x| *x as i128));
+                    if let Some(l) = &left {
+                        if g < (*n).min(l.len()) { violated = Some("request-grants-less-than-asked-and-available"); }
+                        if g > l.len() || sl.len() > l.len() || sl[..] != l[..sl.len().min(l.len())] { violated = Some("view-is-not-a-prefix-of-the-remaining-content"); }
+                        if g != sl.len() { violated = Some("reported-amount-differs-from-the-view"); }
+                    }
+                } else {
+                    let k = (*n).min(src.slice().len());
+                    src.advance(k); log.push(k as i128);
+                    if let Some(l) = &mut left { l.drain(..k.min(l.len())); }
+                }
+            }
+            (log, violated)
+        }));
+        match r {
+            Some(Some((log, violated))) => { let mut o = Ints::new().n(0); for x in &log { o.push(x); }
+                (o, match violated { Some(w) => Oracle::Fail(w.into()), None => if content.is_some() { Oracle::Pass } else { Oracle::None } }, true) }
+            Some(None) => (Ints::new().n(1), if content.is_some() { Oracle::Fail("well-formed-string-rejected".into()) } else { Oracle::None }, false),
+            None => (Ints::new().n(-3), Oracle::Fail("panic".into()), true),
+        }
+    });
+}
+
 pub fn run16(em: &mut Emitter, rng: &mut Rng, thorough: bool) {
+    let alpha0 = [0x61u8, 0x62, 0x00, 0xff];
+    for _ in 0..(if thorough { 120_000 } else { 6_000 }) {
+        let o = random_os(rng, 3, &alpha0, 4);
+        let mut data = Vec::new(); if rng.bool() { os_encode(&o, 0x04, &mut data); } else { os_encode_forms(&o, 0x04, &mut data, rng); }
+        let content = os_content(&o);
+        let nops = rng.range(1, 8) as usize;
+        let script: Vec<(u8, usize)> = (0..nops).map(|_| if rng.chance(3, 5) { (0u8, match rng.below(6) { 0 => 0, 1 => 1, 2 => content.len(), 3 => content.len() + 1, _ => rng.below(content.len() as u64 + 3) as usize }) } else { (1u8, rng.below(content.len() as u64 + 2) as usize) }).collect();
+        source_case(em, 0, &data, &script, Some(content));
+    }
     let alpha = [0x61u8, 0x62, 0x00, 0xff];
     for _ in 0..(if thorough { 240_000 } else { 8_000 }) {
         let o = random_os(rng, 3, &alpha, 4);
